@@ -290,3 +290,20 @@ Example C20_metrics_example :
   mcollector_of (mstep (mrun minit h) (MReg "e/sync/u")) = Some 3%Z /\
   m_registry (mrun minit h) = ["d/sync/u"; "c/finalize/u"; "c/sync/u"].
 Proof. vm_compute. repeat split. Qed.
+
+(* ---- 8. the ControllerRevision cache ---------------------------------------------------- *)
+(* While the shared ControllerRevision informer has not synced no composite controller is
+   hosted, for every history of reconciles (cited by property C09 as
+   C09_no_sync_before_revision_cache). *)
+Theorem C20_no_hosting_before_revision_cache : forall h n,
+  g_rev_synced (grun Composite ginit h) = false ->
+  runningb n (g_state (grun Composite ginit h)) = false.
+Proof. exact C09_no_sync_before_revision_cache. Qed.
+Print Assumptions C20_no_hosting_before_revision_cache.
+
+Example C20_revision_cache_example :
+  let e := GEvent (Reconcile "c" (LFound (fs_spec 1) CrdOk)) in
+  snd (fst (gstep Composite ginit e)) = RErr /\
+  runningb "c" (g_state (grun Composite ginit [e; GRevSynced; e])) = true /\
+  g_rev_synced (grun Composite ginit [e; GRevSynced; e]) = true.
+Proof. vm_compute. repeat split. Qed.
